@@ -556,6 +556,12 @@ def gen_args(rng, f, n):
     out = []
     for j in range(n):
         out.append([gen_arg(rng, t, j < n // 2 or rng.random() < 0.3) for t in f["params"]])
+    # one vector (min, -1, ...) for signed parameters: the signed division overflow corner
+    ps = f["params"]
+    if len(ps) >= 2 and is_int(ps[0]) and signed(ps[0]) and is_int(ps[1]) and signed(ps[1]) and rng.random() < 0.5:
+        v = [str(canon(ps[0], imin(ps[0]))), str(canon(ps[1], -1))]
+        v += [gen_arg(rng, t, True) for t in ps[2:]]
+        out[rng.randrange(len(out))] = v
     return out
 
 
@@ -852,9 +858,25 @@ PARTIAL = ("clause 'source the analyzer rejects produces diagnostics, never a cr
            "stream of token soup, damaged programs and byte noise, not proved; series, strings, channels, units, "
            "flows, sequences, function calls, multi-output functions, loops and stateful variables are outside "
            "the modelled fragment")
-READY = False
+READY = True
 TECHNIQUE = ("Coq proof of compiler correctness (simulation by induction on expressions/statements) over a Gallina "
              "copy of the compiler's lowering + byte-exact and value-exact model/impl correspondence")
 DESIGN_REF = "DESIGN.md §8 C19"
-LEVEL_TEXT = ""
-LEVEL_NOTE = ""
+LEVEL_TEXT = ("Machine-checked Coq theorem C19_compile_correct_partial: for every choice of the float operations, every "
+              "well-typed function of the scalar fragment (i8..u64, f32, f64; literals, locals, unary -/not, "
+              "^ * / % + -, comparisons, and/or, casts, declarations, (compound) assignments, if/else-if/else, early "
+              "return) and every argument vector, the code produced by a Gallina copy of the compiler's lowering, run "
+              "under a semantics of the emitted WebAssembly subset (integers mod 2^32/2^64, traps, host math.pow), "
+              "returns the register image of the value defined by a reference semantics written from spec.md, and "
+              "traps exactly on the spec's runtime errors - provided neither the program nor the call carries one of "
+              "eleven decidable signatures; each signature has a proved witness (C19_..._refuted) that the compiled code "
+              "really diverges from spec.md there. The model is tied to /repo on every run: for generated programs the "
+              "emitted code-section entry must equal the model's encoding byte for byte, wazero's validation verdict and "
+              "results on boundary arguments (floats by bit pattern, via Coq's SpecFloat) must equal the model's, and a "
+              "decidable monitor compares the implementation's results with the spec semantics.")
+LEVEL_NOTE = ("PARTIAL: the no-crash clause is observed on a fuzz stream, not proved; eleven spec/compiler divergences are "
+              "known findings (one tag each; the theorem's guard is exactly their complement); loops, stateful variables, "
+              "calls, series, strings, channels, units, flows are not modelled; validation of the emitted code is "
+              "checked per case (model validator vs wazero), not proved for all programs. Trusted: Coq kernel/vm_compute, "
+              "the hand-written model (tied by byte/value correspondence), the harness, the generator, the readings of "
+              "spec.md listed in Arc/Spec.v. All theorems closed under the global context.")
